@@ -19,7 +19,7 @@ RULE = ("Hypothesis-generated 3D mesh (1-3 nested levels, mixed extents, non-zer
         "`fields(sel1) ++ fields(sel2 minus sel1)` concatenated box by box by index range, min/max rows likewise. "
         "Negative half (~20%): second input with one level less, a removed box, a split box, or all boxes moved by one coarse cell on a far-placed domain (bounds equal to 1e-5 relative) must be refused with "
         "nothing written; a pair listing the same boxes in another header order may be refused (nothing written) or "
-        "combined correctly. Non-trivial = the two layouts differ or one is non-monotone, or a selection drops / "
+        "One selection in six names a field twice (either-rule: refused, or each name once with its own source data). combined correctly. Non-trivial = the two layouts differ or one is non-monotone, or a selection drops / "
         "reorders fields, or a negative case.")
 ASSUMPTIONS = ["selections are given as a space-separated string or a list on either side, through the function and through the command line"]
 
